@@ -221,7 +221,19 @@ func aftermath(root store.Cursor) string {
 	return aftermathEvent(root, (aftermathTick/61)%7)
 }
 
-func aftermathEvent(root store.Cursor, k int) (complaint string) {
+// the exceptional events happen on ANOTHER document (what they leave behind - cached node lists, child indexes keyed
+// by position, half-written string-values - is then visibly foreign to the query that follows)
+var staleRoot store.Cursor
+
+func aftermathEvent(_ store.Cursor, k int) (complaint string) {
+	if staleRoot == nil {
+		c, err := xsel.ReadXml(strings.NewReader(`<stale xmlns:st="urn:stale" id="s0">abc<item n="1">stale1<k/></item><item n="2">stale2</item><x><item n="3">stale3</item><y/><z>z</z></x><st:w>w</st:w></stale>`))
+		if err != nil {
+			return "cannot build the stale document: " + err.Error()
+		}
+		staleRoot = c
+	}
+	root := staleRoot
 	defer func() {
 		if r := recover(); r != nil {
 			complaint = fmt.Sprintf("a failing query panicked out of Exec: %v", r)
